@@ -439,6 +439,9 @@ namespace bxdecay0 {
         if (_pimpl_->tab_prob.e_min[0] < 0.0 or _pimpl_->tab_prob.e_min[0] >= _pimpl_->tab_prob.e_max[0]) {
           throw std::logic_error("bxdecay0::dbd_gA::_load_tabulated_pdf_: Invalid E range!");
         }
+        if (_pimpl_->tab_prob.nsamples < 2 or _pimpl_->tab_prob.nsamples > 100000) {
+          throw std::logic_error("bxdecay0::dbd_gA::_load_tabulated_pdf_: Invalid number of energy samples!");
+        }
 
         _pimpl_->tab_prob.e_nsamples[0] = _pimpl_->tab_prob.nsamples;
         _pimpl_->tab_prob.e_nsamples[1] = _pimpl_->tab_prob.nsamples;
@@ -484,8 +487,8 @@ namespace bxdecay0 {
       {
         unsigned int n1 = _pimpl_->tab_prob.e_nsamples[0];
         unsigned int n2 = _pimpl_->tab_prob.e_nsamples[1];
-        if (prob_index == 0) {
-          _pimpl_->tab_prob.prob.reserve(n1 * n2);
+        if (e2_pdf_count >= (int) _pimpl_->tab_prob.nsamples) {
+          throw std::logic_error("bxdecay0::dbd_gA::_load_tabulated_pdf_: Too many lines of probabilities!");
         }
         unsigned int e2_expected_samples = _pimpl_->tab_prob.nsamples - e2_pdf_count;
         unsigned int e2_sample_count     = 0;
@@ -504,6 +507,10 @@ namespace bxdecay0 {
           if (prob < 0.0) {
             throw std::logic_error("bxdecay0::dbd_gA::_load_tabulated_pdf_: Invalid p.d.f. value ["
                                    + std::to_string(prob) + "] at line #" + std::to_string(nlines) + "!");
+          }
+          if (e2_sample_count >= e2_expected_samples) {
+            throw std::logic_error("bxdecay0::dbd_gA::_load_tabulated_pdf_: Too many p.d.f. values at line #"
+                                   + std::to_string(nlines) + "!");
           }
           e2_sample_count++;
           int index1 = prob_index / n2;
@@ -552,6 +559,9 @@ namespace bxdecay0 {
         }
         break;
       }
+    }
+    if (!parsed_esum or !parsed_energy_sampling_header or e2_pdf_count != (int) _pimpl_->tab_prob.nsamples) {
+      throw std::logic_error("bxdecay0::dbd_gA::_load_tabulated_pdf_: Truncated tabulated p.d.f. file!");
     }
     if (debug) {
       std::cerr << "[debug] bxdecay0::dbd_gA::_load_tabulated_pdf_: Energy sampling step = "
@@ -659,6 +669,9 @@ namespace bxdecay0 {
         if (_pimpl_->tab_prob.e_min[0] < 0.0 or _pimpl_->tab_prob.e_min[0] >= _pimpl_->tab_prob.e_max[0]) {
           throw std::logic_error("bxdecay0::dbd_gA::_load_tabulated_cdf_opt_: Invalid E range!");
         }
+        if (_pimpl_->tab_prob.nsamples < 2 or _pimpl_->tab_prob.nsamples > 100000) {
+          throw std::logic_error("bxdecay0::dbd_gA::_load_tabulated_cdf_opt_: Invalid number of energy samples!");
+        }
 
         _pimpl_->tab_prob.energies.reserve(_pimpl_->tab_prob.nsamples);
         _pimpl_->tab_prob.e_min[1] = _pimpl_->tab_prob.e_min[0];
@@ -700,6 +713,9 @@ namespace bxdecay0 {
         std::istringstream line_iss(raw_line);
         load_optimized_cdf_array(raw_line, _pimpl_->tab_prob.e1_cprobs);
         parsed_e1_cdf = true;
+        if (_pimpl_->tab_prob.e1_cprobs.size() != _pimpl_->tab_prob.nsamples) {
+          throw std::logic_error("bxdecay0::dbd_gA::_load_tabulated_cdf_opt_: expected vs effective E1 cprob count match issue!");
+        }
         // Prepare the number of e2 energy samples for a c.d.f. probs line:
         _pimpl_->tab_prob.e2_cprobs.reserve(_pimpl_->tab_prob.e1_cprobs.size());
         if (debug) {
@@ -715,6 +731,9 @@ namespace bxdecay0 {
 
       // Load/parse a line of E2 cumulative probabilities per E1 sample:
       {
+        if (e2_cdf_count >= (int) _pimpl_->tab_prob.nsamples) {
+          throw std::logic_error("bxdecay0::dbd_gA::_load_tabulated_cdf_opt_: Too many lines of cumulative probabilities!");
+        }
         {
           static std::vector<double> empty;
           _pimpl_->tab_prob.e2_cprobs.push_back(empty);
@@ -753,6 +772,9 @@ namespace bxdecay0 {
         break;
       }
     } // while getline loop
+    if (!parsed_e1_cdf or e2_cdf_count != (int) _pimpl_->tab_prob.nsamples) {
+      throw std::logic_error("bxdecay0::dbd_gA::_load_tabulated_cdf_opt_: Truncated tabulated c.d.f. file!");
+    }
     if (debug) {
       std::cerr << "[debug] bxdecay0::dbd_gA::_load_tabulated_cdf_opt_: Energy sampling step = "
                 << std::to_string(_pimpl_->tab_prob.energy_step) << " MeV" << std::endl;
